@@ -182,3 +182,64 @@ Section Transport3.
     exact (composite_interp_sum R rO rI radd rmul rsub ropp Rth V VC vaddC vscaleC inj tp ref ls Href Hconn C b HC Hb HB g w e q He Hga Hgs).
   Qed.
 End Transport3.
+
+(* ---------- CompositeBasis and COOData.inverse ---------- *)
+Require Import Model.C19_CompBasis Proofs.C19_CompBasisProofs Proofs.C19_InverseProofs.
+
+Lemma gen_composite_basis_is_model R V VC inj b0 rest eq :
+  gen_composite_basis R V VC inj b0 rest eq = composite_basis R V VC inj b0 rest eq.
+Proof. reflexivity. Qed.
+
+Section Transport4.
+  Variable R : Type.
+  Variables (rO rI : R) (radd rmul rsub : R -> R -> R) (ropp : R -> R).
+  Variable Rth : ring_theory rO rI radd rmul rsub ropp (@eq R).
+  Variables V VC W : Type.
+  Variables (vadd : V -> V -> V) (vscale : R -> V -> V) (vaddC : VC -> VC -> VC) (vscaleC : R -> VC -> VC).
+  Variable inj : nat -> V -> VC.
+
+  Theorem gen_compositebasis_block_assembly (b0 : basis R V) (rest : list (basis R V)) (form : VC -> VC -> W -> R)
+      (a bt : nat) (w : nat -> nat -> W) (uC vC ub va : nat -> R) :
+    let bs := b0 :: rest in
+    (forall n, n < length bs -> wf_basis (nth n bs b0) /\ bnelems (nth n bs b0) = bnelems b0 /\ bnq (nth n bs b0) = bnq b0) ->
+    (forall x y v w, form (vaddC x y) v w = radd (form x v w) (form y v w)) ->
+    (forall s x v w, form (vscaleC s x) v w = rmul s (form x v w)) ->
+    (forall u x y w, form u (vaddC x y) w = radd (form u x w) (form u y w)) ->
+    (forall s u x w, form u (vscaleC s x) w = rmul s (form u x w)) ->
+    (forall n x y, inj n (vadd x y) = vaddC (inj n x) (inj n y)) ->
+    (forall n s x, inj n (vscale s x) = vscaleC s (inj n x)) ->
+    a < length bs -> bt < length bs ->
+    (forall e q, e < bnelems b0 -> q < bnq b0 -> bdx (nth bt bs b0) e q = bdx b0 e q) ->
+    cb_supported R rO V b0 rest uC bt ub -> cb_supported R rO V b0 rest vC a va ->
+    exists C cC AC cab Aab,
+      gen_composite_basis R V VC inj b0 rest false = Some C /\
+      bN C = psum (fun n => bN (nth n bs b0)) (length bs) /\
+      gen_bilinear_assemble R rO radd rmul VC W form w C None = Some cC /\ gen_to_dense2 R rO radd cC = Some AC /\
+      gen_bilinear_assemble R rO radd rmul V W (fun x y w => form (inj bt x) (inj a y) w) w (nth bt bs b0) (Some (nth a bs b0)) = Some cab /\
+      gen_to_dense2 R rO radd cab = Some Aab /\
+      vAu R rO radd rmul vC AC uC (bN C) (bN C) = vAu R rO radd rmul va Aab ub (bN (nth a bs b0)) (bN (nth bt bs b0)).
+  Proof.
+    intros bs Hwf F1 F2 F3 F4 I1 I2 Ha Hbt Hdx Hsu Hsv.
+    destruct (compositebasis_block_assembly R rO rI radd rmul rsub ropp Rth V VC W vadd vscale vaddC vscaleC inj b0 rest Hwf
+                form F1 F2 F3 F4 I1 I2 a bt w uC vC ub va Ha Hbt Hdx Hsu Hsv) as [C [cC [AC [cab [Aab H]]]]].
+    exists C, cC, AC, cab, Aab. rewrite gen_composite_basis_is_model, !gen_bilinear_is_model, !gen_to_dense2_is_model. exact H.
+  Qed.
+
+  (* the constructor rejects bases with a different number of cells or quadrature points (N19) *)
+  Theorem gen_composite_basis_rejects (b0 b1 : basis R V) (rest : list (basis R V)) eq :
+    bnelems b1 <> bnelems b0 \/ bnq b1 <> bnq b0 -> gen_composite_basis R V VC inj b0 (b1 :: rest) eq = None.
+  Proof.
+    intros H. unfold gen_composite_basis. cbv zeta. cbn [forallb]. rewrite !Nat.eqb_refl. cbn [andb].
+    destruct H as [H|H]; apply Nat.eqb_neq in H; rewrite H; [rewrite andb_false_r|]; reflexivity.
+  Qed.
+
+  (* COOData.inverse: local matrices of inverse(c) = inv of the local matrices of c, for any shape-preserving per-cell inv *)
+  Theorem gen_inverse_spec (inv : list (list R) -> list (list R)) (data : list R) n0 n1 L :
+    0 < n0 * n1 -> gen_tolocal R rO data [n0; n1] = Some L ->
+    (forall M, In M L -> length (inv M) = n0 /\ forall i, i < n0 -> length (nth i (inv M) []) = n1) ->
+    exists d', gen_inverse_with R rO inv data [n0; n1] = Some d' /\ gen_tolocal R rO d' [n0; n1] = Some (map inv L).
+  Proof.
+    intros Hm E Hinv. unfold gen_inverse_with. rewrite E. eexists. split; [reflexivity|].
+    exact (inverse_tolocal R rO inv data n0 n1 L Hm E Hinv).
+  Qed.
+End Transport4.
